@@ -21,6 +21,13 @@ func (in *Interp) liveThreads() int {
 
 // visible marks a scheduling point. It returns true when the operation may be performed now.
 func (in *Interp) visible(th *Thread, f *Frame, desc string, enabled func() bool) bool {
+	if th.id >= 0 && !th.granted && !in.userContext(th) && desc != "symYield" && desc != "symWaitUntil" {
+		// inside un-instrumented library code (context, ...): not a scheduling point unless it has to block
+		if enabled == nil || enabled() {
+			return true
+		}
+		in.note("model:blocking-inside-library:" + desc)
+	}
 	if th.granted {
 		th.granted = false
 		if desc != "send-handoff" {
@@ -36,6 +43,9 @@ func (in *Interp) visible(th *Thread, f *Frame, desc string, enabled func() bool
 			return true
 		}
 		if th.id < 0 {
+			if th.name == "waituntil" {
+				panic(waitBlocked{})
+			}
 			panic(in.unsupported("blocking operation in package initialiser"))
 		}
 		panic(abort{abDeadlock, "thread " + th.name + " blocks forever at " + desc + " (no other thread)"})
@@ -45,6 +55,8 @@ func (in *Interp) visible(th *Thread, f *Frame, desc string, enabled func() bool
 	th.opDesc = desc
 	return false
 }
+
+type waitBlocked struct{}
 
 // schedule picks the next thread to run; returns nil when nothing can run.
 func (in *Interp) schedule() *Thread {
